@@ -34,6 +34,7 @@ def base_composeinfo(k=0):
     ci.compose.final = bool(k % 2)
     spec = [("Server", "Server", None, ["x86_64", "s390x"], "variant"),
             ("HA", "Server-HA", "Server", ["x86_64"], "addon"),
+            ("Deep", "Server-HA-Deep", "Server-HA", ["x86_64"], "variant"),
             ("optional", "Server-optional", "Server", ["x86_64", "s390x"], "optional"),
             ("SAT", "Server-SAT", "Server", ["x86_64"], "layered-product"),
             ("Client", "Client", None, ["x86_64"], "variant")]
@@ -265,11 +266,11 @@ def special_corruption(sym, case, warm=()):
     elif case == "grandchild-arch-outside-parent-inside-top":
         ci, objs = base_composeinfo(0)
         deep = Variant(ci)
-        deep.id, deep.uid, deep.name, deep.type = "Deep", "Server-HA-Deep", "deep", "variant"
+        deep.id, deep.uid, deep.name, deep.type = "Deeper", "Server-HA-Deeper", "deeper", "variant"
         top_only = sorted(set(objs["Server"].arches) - set(objs["Server-HA"].arches))
         deep.arches = set(top_only[:1])          # an arch the top-level variant has and the direct parent has not
         deep.parent = objs["Server-HA"]
-        objs["Server-HA"].variants["Deep"] = deep
+        objs["Server-HA"].variants["Deeper"] = deep
         if not top_only:
             return
         top = ci
